@@ -499,6 +499,8 @@ def symbol_plan(run, what, nrand_q, nrand_t, rule, nontrivial, chunk=600):
     for s in run.add_model("MC_Validate", env={"FAMILY": "sym", "TIER": run.tier}):
         s["query"] = ["a", "r"]
         scs.append(F.symbol_scenario(s, "mc-sym", what))
+        if run.prop == "C16" and (not q or len(scs) % 3 == 0):
+            scs.append(F.symbol_scenario(s, "mc-sym-layout", what, layout="random", rng=run.rng))
     if run.prop == "C17":
         for s in run.add_model("MC_Validate", env={"FAMILY": "shadow", "TIER": run.tier}):
             s["query"] = ["a", "d1"]
@@ -508,6 +510,8 @@ def symbol_plan(run, what, nrand_q, nrand_t, rule, nontrivial, chunk=600):
         pr = g.project()
         pr["query"] = [f["id"] for f in pr["files"]][:3]
         scs.append(F.symbol_scenario(pr, "rnd-project", what))
+        if run.prop == "C16":
+            scs.append(F.symbol_scenario(pr, "rnd-project-layout", what, layout="random", rng=run.rng))
     run.add(scs)
     run.rule = rule
     return judge(run, nontrivial, chunk_events=chunk)
@@ -592,6 +596,11 @@ def c19(run):
     g = F.ProjGen(run.rng, "C19")
     for _ in range(200 if q else 3000):
         scs.append(roundtrip_scenario(g.project()["files"], "rnd-project"))
+    # rich documents with annotations, values and doc comments of every shape (also the empty `/** */`)
+    rg = D.RichGen(run.rng, maxdepth=2)
+    for k in range(300 if q else 4000):
+        pcs = D.layout(rg.document(), run.rng, mode="spaces", docs=0.5, unicode_ws=False, nl="\n")
+        scs.append(roundtrip_scenario([{"id": "a", "text": D.text_of(pcs)}], "rich-docs"))
     run.add(scs)
     run.rule = ("Trees from the TLC-enumerated families 'dir' (all 17 resolved kinds x 4 directions x oneway), 'ow', 'sym' "
                 "(+ 'cont', 'res' in the thorough tier), three frame documents with annotations, documentation and all value "
